@@ -428,7 +428,7 @@ _EXTRA_FLOORS = {
     "C11": {"seqdef-cases": 2700, "typed-filter-judged": 1400, "seqdef-nested-cases": 25},
     "C12": {"order-family-cases": 5000, "match-coverage:accepted": 25, "loop-value-cases": 100},
     "C14": {"twin-grouping-cases": 3000, "float-chain-discriminating-cases": 1100},
-    "C15": {"deep-types": 90},
+    "C15": {"deep-types": 90, "field-name-types": 1000},
     "C17": {"fixed-histories": 20},
     "C18": {"fs-fault-states": 75},
     "C19": {"scalar-matrix-cases": 1200, "scalar-matrix-table-cases": 1200, "wide-value-cases": 700},
